@@ -905,7 +905,10 @@ TURN_MODES = ["ok", "ok", "oknat", "oknat", "twice", "silent", "garbage", "wrong
 TURN_OK = ("ok", "oknat", "twice")
 
 
-def gen_gather(rng, i):
+def gen_gather(rng, i, mixed=False):
+    """mixed=True: a STUN server given by address together with relay servers whose names do not resolve.  The agent resolves both kinds through
+    GResolver worker threads, so which answer lands first is decided by the machine, not by the scenario: such runs are judged by the oracle only
+    (no run-twice comparison); the other scenarios keep lookups of one kind per run and stay deterministic."""
     nip = rng.choice([1, 1, 2])
     ips = tuple("10.0.%d.%d" % (rng.randrange(0, 4), k + 1) for k in range(nip))
     ncomp = rng.choice([1, 2])
@@ -919,6 +922,8 @@ def gen_gather(rng, i):
     if drop:
         ops.append("srvloss,1")
     stun = rng.choice([None, None] + STUN_MODES)
+    if mixed:
+        stun = rng.choice(["ok", "nat", "nat", "sameip", "silent", "err400", "natlate", "nattwice"])
     if stun and "late" in stun and drop:
         stun = "nat"      # a 1.5 s late answer only beats the 2 s transaction timeout when it answers the first transmission
     servers = []
@@ -940,7 +945,19 @@ def gen_gather(rng, i):
             ops.append("server,10.9.%d.1,3479,loop300" % (k + 1))
         for c in range(1, ncomp + 1):
             ops.append("relay,0,1,%d,10.9.%d.1,3478" % (c, k + 1))
-    ops += ["gather,0,1", "run,%d" % rng.choice([15000, 30000])]
+    badname = mixed or (rng.random() < 0.12 and not (stun and turns))
+    if badname and stun and not mixed:
+        badname = False
+    if badname:
+        # a server given by a host name that does not resolve (this sandbox has no resolver: every lookup fails at once): it contributes nothing and
+        # must not keep the gathering from completing (fix 0-resolve: the failed lookup used to skip the completion test).  As the STUN server
+        # only when no other STUN server is configured (the property is agent-wide), otherwise as an additional relay server
+        if not stun and rng.random() < 0.5:
+            ops += ["props,0,stun-server,no-such-host.invalid", "prop,0,stun-server-port,3478"]
+        else:
+            for c in range(1, ncomp + 1):
+                ops.append("relayhost,0,1,%d,no-such-host.invalid,3478" % c)
+    ops += ["gather,0,1"] + (["settle,40"] if badname else []) + ["run,%d" % rng.choice([15000, 30000])]
     ops += ["localcands,0,1,%d" % c for c in range(1, ncomp + 1)]
     again = rng.random() < 0.3 and "err300" not in turns and "loop300" not in turns
     turns2 = list(turns)
